@@ -300,6 +300,18 @@ def rule_R08_2(ctx):
             oo = pv.origins(gfn, stt[2][2][0], ())
             po = param_origin(oo, f.path)
             good = len(oo) == 1 and bool(po)
+        elif aggs and all(i[4] in prog.adts and not i[4].startswith(("std::", "core::", "alloc::")) for i in aggs) \
+                and len(set(i[4] for i in aggs)) == 1:
+            # `Expr` as a struct `Expr{raw, loc}`: the expression component of
+            # the result must be the operand, unchanged
+            adt_ = prog.adts[aggs[0][4]]
+            ks = [k_ for k_, fd in enumerate(adt_["variants"][0]["fields"]) if fd["ty"] == "ast::RawExpr"] \
+                if len(adt_.get("variants", [])) == 1 else []
+            good = False
+            if len(ks) == 1:
+                oo = pv.origins(f, [0, []], (("f", ks[0], aggs[0][4], adt_["variants"][0]["name"]),))
+                po = param_origin(oo, f.path)
+                good = len(oo) == 1 and bool(po)
         else:
             good = o and len(o) == 1 and bool(po) and po[0][1] == (F1,)
         r.inst("unit action %d identity=%s" % (act, good))
